@@ -67,7 +67,7 @@ def cases(draw):
         kind = draw(st.sampled_from(["stray-dir", "stray-file", "misnamed", "desync", "sidecar", "other-ext", "none-in-cwd"]))
         junk.append({"kind": kind, "near": draw(st.integers(0, len(ents) - 1)), "name": draw(st.sampled_from(JUNK_NAMES)),
                      "n": draw(st.integers(0, 7)), "as_dir": draw(st.booleans())})
-    return {"entities": [[t, f] for t, f in ents], "searches": searches, "junk": junk}
+    return {"entities": [[t, f] for t, f in ents], "searches": searches, "junk": junk, "as_str": draw(st.integers(0, 3)) == 0}
 
 
 def junk_paths(model, cname, ents, junk):
@@ -196,7 +196,10 @@ def evaluate(case) -> Outcome:
                 out.label("skipped:" + exp)
                 continue
             for name, mk in finders.items():
-                ok, got = call(lambda: [str(x) for x in mk().find(s)])
+                if case.get("as_str"):
+                    ok, got = call(lambda: [x if isinstance(x, str) else ("not-a-string:" + repr(x)) for x in mk().find(s, as_sid=False)])
+                else:
+                    ok, got = call(lambda: [str(x) for x in mk().find(s)])
                 out.evaluations += 1
                 if not ok:
                     from spil import SpilException
